@@ -300,5 +300,7 @@ func checkSettle1(c Case, r *vf.R) error {
 
 func TestSettle(t *testing.T) {
 	vf.Run(t, vf.Prop[Case]{Sub: "settle", Gen: genCase, Check: checkSettle, Cases: vf.N(20000, 150000),
-		MaxRate: map[string]float64{"F02a": 0.0015, "F02b": 0.06, "F02c": 0.0002}})
+		MaxRate: map[string]float64{"F02a": 0.0015, "F02b": 0.06, "F02c": 0.0002},
+		// measured at six seeds of the quick tier (480000 cases): 77, 9508 and 6 fall-backs
+		BaseRate: map[string]float64{"F02a": 0.00016, "F02b": 0.0198, "F02c": 0.0000125}})
 }
